@@ -271,30 +271,88 @@ def _binds(st: ast.AST, name: str) -> bool:
     return False
 
 
+ROW_PRESERVING_METHODS = {"copy", "astype", "ravel", "flatten", "toarray", "todense", "to_numpy", "squeeze", "view"}
+ROW_PRESERVING_FUNCS = {"asarray", "array", "ascontiguousarray", "asfortranarray", "copy", "asanyarray", "float64", "squeeze", "ravel"}
+
+
 def gather_alternatives(repo, fi: FunctionInfo, e: ast.AST, at: ast.AST):
     """how the rows of an argument are selected, on every branch:
     {(branch facts, base text, row-index text, {(leaf name, its reaching definitions)})}
-    for values of the form BASE[ROWS] / BASE[ROWS, :]; alternatives that are the
-    constant None (optional weights) are dropped together with the `is None`
-    facts that select them."""
+    The value is followed through conditional expressions, assignments in
+    different branches, inlined helpers and row-preserving wrappers (`.copy()`,
+    `.astype(..)`, `[:, numpy.newaxis]`, ...) down to BASE[ROWS] / BASE[ROWS, :].
+    Alternatives that are the constant None (optional weights) are dropped
+    together with the `is None` facts that select them."""
+    out = set()
+    _gather(repo, fi, e, at, frozenset(), 0, False, out)
+    return out
+
+
+def _full_slice(x) -> bool:
+    return isinstance(x, ast.Slice) and x.lower is None and x.upper is None and x.step is None
+
+
+def _gather(repo, fi, e, at, conds, depth, pre, out):
     ex = expander(repo)
     rd = ex.rd(fi)
-    out = set()
-    for conds, x, st in guarded_values(repo, fi, e, at):
-        if isinstance(x, ast.Constant) and x.value is None:
-            continue
-        if not isinstance(x, ast.Subscript):
-            out.add((_strip_none(conds), ast.unparse(x)[:80], None, frozenset()))
-            continue
-        sl = x.slice
-        rows = sl.elts[0] if isinstance(sl, ast.Tuple) and sl.elts else sl
-        node = rd.node_of(st)
+    if depth > 12:
+        out.add((_strip_none(conds), "?", None, frozenset()))
+        return
+    if isinstance(e, ast.Constant) and e.value is None:
+        return
+    if isinstance(e, ast.IfExp):
+        t = e.test if pre else ex.norm_expr(e.test, fi, at)
+        _gather(repo, fi, e.body, at, conds | frozenset(atoms(t, True)), depth + 1, pre, out)
+        _gather(repo, fi, e.orelse, at, conds | frozenset(atoms(t, False)), depth + 1, pre, out)
+        return
+    if isinstance(e, ast.Call):
+        f = e.func
+        if isinstance(f, ast.Attribute) and f.attr in ROW_PRESERVING_METHODS:
+            _gather(repo, fi, f.value, at, conds, depth + 1, pre, out)
+            return
+        fn = f.attr if isinstance(f, ast.Attribute) else (f.id if isinstance(f, ast.Name) else "")
+        if fn in ROW_PRESERVING_FUNCS and e.args:
+            _gather(repo, fi, e.args[0], at, conds, depth + 1, pre, out)
+            return
+    if isinstance(e, ast.Subscript):
+        sl = e.slice
+        first = sl.elts[0] if isinstance(sl, ast.Tuple) and sl.elts else sl
+        if _full_slice(first):
+            # x[:, numpy.newaxis], x[:, k]: all rows kept
+            _gather(repo, fi, e.value, at, conds, depth + 1, pre, out)
+            return
+        base = e.value if pre else ex.norm_expr(e.value, fi, at)
+        rows = first if pre else ex.norm_expr(first, fi, at)
+        node = rd.node_of(at)
         leaves = set()
         for n in ast.walk(rows):
             if isinstance(n, ast.Name) and node is not None:
                 leaves.add((n.id, tuple(rd.reaching(n.id, node))))
-        out.add((_strip_none(conds), ast.unparse(norm.canon(x.value, rename=False)), ast.unparse(norm.canon(rows, rename=False)), frozenset(leaves)))
-    return out
+        out.add((_strip_none(conds), xt(base), xt(rows), frozenset(leaves)))
+        return
+    if isinstance(e, ast.Name) and not pre:
+        node = rd.node_of(at)
+        if node is not None:
+            ids = rd.reaching(e.id, node)
+            dns = [rd.node_by_id[i] for i in ids if i >= 0]
+            dns = [d for d in dns if d.kind == "stmt" and isinstance(d.ast, (ast.Assign, ast.AnnAssign)) and _binds(d.ast, e.id)]
+            if dns and -1 not in ids:
+                for d in dns:
+                    c = conds_at(repo, fi, d.ast) if len(dns) > 1 else frozenset()
+                    v = _assigned_value(d, e.id)
+                    if v is not None:
+                        _gather(repo, fi, v, d.ast, conds | c, depth + 1, False, out)
+                    else:
+                        r = ex._name_def(ast.Name(id=e.id, ctx=ast.Load()), d.ast, d, fi, {}, 0, set())
+                        if r is None:
+                            out.add((_strip_none(conds | c), e.id, None, frozenset()))
+                        else:
+                            if ex.post is not None:
+                                r = ex.post(r)
+                            _gather(repo, fi, r, d.ast, conds | c, depth + 1, True, out)
+                return
+    x = e if pre else ex.norm_expr(e, fi, at)
+    out.add((_strip_none(conds), xt(x)[:80], None, frozenset()))
 
 
 def _strip_none(conds):
@@ -360,3 +418,57 @@ def defs_texts(repo, fi: FunctionInfo, name: str) -> List[Tuple[ast.stmt, str]]:
             r = ex.post(r)
         out.append((s, ast.unparse(norm.canon(r, rename=False))))
     return out
+
+
+# ---------------------------------------------------------------- Cython side
+_cyex = {}
+
+
+def cy_expander(repo) -> Expander:
+    """expander for functions of the converted Cython trees (no call resolution)"""
+    e = _cyex.get(id(repo))
+    if e is None:
+        _cyex.clear()
+        e = _cyex[id(repo)] = Expander(repo, lambda *a, **k: None)
+        e.post = complement_norm
+    return e
+
+
+def cy_fi(cm, cname: str, mname: str) -> FunctionInfo:
+    node = cm.method(cname, mname)
+    return FunctionInfo(mname, f"{cm.relpath}:{cname}.{mname}", node, None)
+
+
+def cy_returns(repo, fi: FunctionInfo):
+    ex = cy_expander(repo)
+    out = []
+    for r in sorted((x for x in ast.walk(fi.node) if isinstance(x, ast.Return)), key=lambda x: x.lineno):
+        out.append((r, ex.text(r.value, fi, r) if r.value is not None else "None"))
+    return out
+
+
+def same_selection(alts_list) -> bool:
+    """do several arguments (their gather_alternatives) select the same rows?
+    The sets of (row index, definitions of its leaves) must agree, and where the
+    arguments are chosen under the same branch facts they must agree branch by
+    branch."""
+    if any(a[2] is None for v in alts_list for a in v) or any(not v for v in alts_list):
+        return False
+    plain = [{(a[2], a[3]) for a in v} for v in alts_list]
+    if any(p != plain[0] for p in plain[1:]):
+        return False
+    maps = []
+    for v in alts_list:
+        m = {}
+        for a in v:
+            m.setdefault(a[0], set()).add((a[2], a[3]))
+        maps.append(m)
+    common = set(maps[0])
+    for m in maps[1:]:
+        common &= set(m)
+    for c in common:
+        if any(m[c] != maps[0][c] for m in maps[1:]):
+            return False
+    # arguments whose alternatives depend on branches the others do not have: every
+    # one of their alternatives must be an alternative of the others on a compatible branch
+    return True
